@@ -102,8 +102,9 @@ def sbml_domain(rng, spec):
             for x in s[key]:
                 if rng.random() < 0.4:
                     members.append([kind, x["id"]])
-        if s["genes"] and rng.random() < 0.08:
-            members.append(["genes", rng.choice(s["genes"])["id"]])      # known finding: cannot be read back
+        for x in s["genes"]:
+            if rng.random() < 0.3:
+                members.append(["genes", x["id"]])
         s["groups"].append({"id": "grp%d" % gi, "name": rng.choice(["", "Group A"]),
                             "kind": rng.choice(["collection", "classification", "partonomy"]), "members": members})
     return s
@@ -522,8 +523,6 @@ def cause_of(spec, out, step, code):
     if "err" in r1:
         if r1.get("stage") == "write" and any(m["compartment"] is None for m in spec["mets"]):
             return "write_fails_compartment_none"
-        if r1.get("stage") == "read" and any(k == "genes" for g in spec.get("groups", []) for k, _ in g["members"]):
-            return "group_with_gene_member"
         return "%s_%s" % (r1.get("stage"), r1["err"])
     if step >= 200:
         return "second_trip"
@@ -536,6 +535,12 @@ def cause_of(spec, out, step, code):
         atoms.append("id_with_escape_pattern")
         paths = {p for p in paths if not (p.endswith("/id") or "/stoich" in p or p.startswith("/notes") or "/genes" in p
                                            or p.endswith("/rule"))}
+    gsids = {g["id"] for g in spec.get("groups", [])}
+    if any(k == "genes" and i in gsids for g in spec.get("groups", []) for k, i in g["members"]) and \
+            diff_paths(out["obs0"]["notes"], r1["ok"]["notes"]):
+        # gene x and group x are both written G_x: the member resolves to the group and is dropped
+        atoms.append("gene_member_written_like_a_group")
+        paths = {p for p in paths if not p.startswith("/notes")}
     if lost_digits(out["obs0"], r1["ok"]):
         atoms.append("number_15_digits")
         paths = {p for p in paths if not p.startswith(("/rxns/#/stoich", "/rxns/#/lb", "/rxns/#/ub", "/rxns/#/objective"))}
@@ -752,15 +757,21 @@ def run(args, rep, info, broken, rng):
     def is_known(key):
         return any(K.matches(f["signature"], {"code": key[0], "cause": key[1]}) for f in rep.findings)
     order = [k for k in sorted(seen) if is_known(k)] + [k for k in sorted(seen) if not is_known(k)][:5]
+    smalls = []
     for key in order:
         i = seen[key][0]
-        small = specs[i] if (args.replay or is_known(key) or key[1].startswith("validator")) else shrink(specs[i], seeds[i], key)
-        c2, _, o2 = evaluate([small], [seeds[i]])
+        smalls.append(specs[i] if (args.replay or is_known(key) or key[1].startswith("validator"))
+                      else shrink(specs[i], seeds[i], key))
+    # the (shrunk) cases are evaluated once more, all in one batch
+    c2, _, o2 = evaluate(smalls, [seeds[seen[key][0]] for key in order]) if order else ({}, [], [])
+    for j, key in enumerate(order):
+        i = seen[key][0]
+        small = smalls[j]
         sig = {"code": key[0], "cause": key[1]}
         replay = {"case": small, "case_seed": seeds[i], "failed": CODES.get(key[0], str(key[0])), "cause": key[1],
-                  "failing_steps": c2[0][:8], "n_cases_of_this_kind": len(seen[key]),
-                  "exceptions": [(VARIANTS[t], r1.get("stage"), r1.get("err"), r1.get("msg")) for t, r1, r2 in o2[0]["trips"] if "err" in r1],
-                  "validator_messages": o2[0]["validator"], "codec_observations": o2[0]["ids"][-6:],
+                  "failing_steps": c2[j][:8], "n_cases_of_this_kind": len(seen[key]),
+                  "exceptions": [(VARIANTS[t], r1.get("stage"), r1.get("err"), r1.get("msg")) for t, r1, r2 in o2[j]["trips"] if "err" in r1],
+                  "validator_messages": o2[j]["validator"], "codec_observations": o2[j]["ids"][-6:],
                   "how_to_read": "case = model spec (harness/io_models.py: build); " + STEPS + ",".join(VARIANTS),
                   "theorem": "C10_sbml_doc_roundtrip / C10_gpr_assoc_roundtrip / C10_sid_roundtrip / C10_bound_param_roundtrip / "
                              "C10_read_bounds (coq/theories/Properties/C10.v)"}
